@@ -60,6 +60,11 @@ def relerr(X, M):
 
 # ------------------------------------------------------------------ deterministic data
 def data_tensor(family, shape, rank, seed=0):
+    """Deterministic data tensor; its memory layout rotates with (shape, seed) - C, Fortran, negative strides, strided view."""
+    return V.relayout(_data_tensor(family, shape, rank, seed), seed + sum(shape) + len(shape))
+
+
+def _data_tensor(family, shape, rank, seed=0):
     shape = tuple(shape)
     if family == "generic":
         return V.generic(shape, seed + 3) * 2.0
